@@ -39,6 +39,15 @@ func waitCh(ch <-chan struct{}, what string) error {
 	}
 }
 
+func waitChD(ch <-chan struct{}, d time.Duration, what string) error {
+	select {
+	case <-ch:
+		return nil
+	case <-time.After(d):
+		return fmt.Errorf("%w: %s", errInconclusive, what)
+	}
+}
+
 func check(t *rapid.T, st *vh.T, c any, run func() (map[string]int, error), nt func(map[string]int) bool) {
 	st.Begin(c)
 	feat, err := run()
@@ -116,6 +125,9 @@ type DCase struct {
 	Gate1   int    `json:"gate1"`     // the receiver blocks when it has handled this many messages, until phase A is sent
 	Gate2   int    `json:"gate2"`     // and again (Gate1+Gate2), until phase B is sent
 	Actor   []bool `json:"via_actor"` // sender i sends from inside an actor (Context.Send) instead of a plain goroutine
+	// DupSpawn: between the two phases somebody spawns an actor under the target's kind and id again.
+	// That must change nothing (C10); what matters here is that the target keeps receiving (C01).
+	DupSpawn bool `json:"dup_spawn,omitempty"`
 }
 
 type dmsg struct{ G, Seq int }
@@ -145,7 +157,10 @@ func runDelivery(c DCase) (map[string]int, error) {
 		done    = make(chan struct{})
 	)
 	count := 0
+	var inRecv atomic.Int32
 	target := e.SpawnFunc(func(ctx *actor.Context) {
+		inRecv.Add(1)
+		defer inRecv.Add(-1)
 		switch m := ctx.Message().(type) {
 		case actor.Initialized, actor.Started, actor.Stopped:
 		case dmsg:
@@ -233,21 +248,53 @@ func runDelivery(c DCase) (map[string]int, error) {
 		return nil, err
 	}
 	close(gate1)
+	if c.DupSpawn {
+		ran := make(chan struct{}, 1)
+		e.Spawn(func() actor.Receiver { ran <- struct{}{}; return recv(func(*actor.Context) {}) }, "target", actor.WithID("0"), actor.WithInboxSize(c.Inbox))
+		select {
+		case <-ran:
+			return nil, fmt.Errorf("a second Spawn under the id of the live target ran its Producer")
+		default:
+		}
+		feat["duplicate-spawn-over-the-live-target"]++
+	}
 	if err := phase(func(g int) int { return c.PhaseA[g] }, func(g int) int { return c.PhaseA[g] + c.PhaseB[g] }); err != nil {
 		return nil, err
 	}
 	close(gate2)
 	e.Send(target, final{})
-	if err := waitCh(done, "the target never handled the final marker (sent after every sender had returned)"); err != nil {
-		// every send has returned and the actor is live: a message that is never handled is a lost message
-		mu.Lock()
-		k := len(log)
-		mu.Unlock()
-		total := 0
-		for g := 0; g < n; g++ {
-			total += c.PhaseA[g] + c.PhaseB[g]
+	if err := waitChD(done, 5*time.Second, ""); err != nil {
+		// Slow, or lost?  Every send has returned, both gates are open.  Progress is measured against the
+		// engine itself instead of the clock: a bystander actor answers 300 requests, one after the other,
+		// all issued after the final marker was sent.  If the target - a runnable actor with messages in
+		// its inbox - is not inside Receive and has still not reached the marker after that (and 2 more
+		// seconds), the messages are not going to be handled: they are lost (C01), or the actor rests
+		// with a non-empty inbox (C03).
+		by := e.SpawnFunc(func(ctx *actor.Context) {
+			if _, ok := ctx.Message().(int); ok {
+				ctx.Respond("pong")
+			}
+		}, "bystander")
+		for i := 0; i < 300; i++ {
+			if r, rerr := e.Request(by, i, wait).Result(); rerr != nil || r != "pong" {
+				return nil, fmt.Errorf("%w: the bystander did not answer either (%v)", errInconclusive, rerr)
+			}
 		}
-		return nil, fmt.Errorf("%w (handled %d of %d messages)", err, k, total)
+		if waitChD(done, 2*time.Second, "") == nil {
+			e.Poison(by)
+		} else {
+			mu.Lock()
+			k := len(log)
+			mu.Unlock()
+			total := 0
+			for g := 0; g < n; g++ {
+				total += c.PhaseA[g] + c.PhaseB[g]
+			}
+			if inRecv.Load() != 0 {
+				return nil, fmt.Errorf("%w: the target is still inside Receive (handled %d of %d)", errInconclusive, k, total)
+			}
+			return nil, fmt.Errorf("every sender has returned, the gates are open, the target is not inside Receive, and a bystander actor on the same engine has answered 300 requests issued after the final marker was sent - yet the target has handled only %d of the %d messages sent to it and not the marker: messages sent to a live actor are not being handed to Receive", k, total)
+		}
 	}
 	mu.Lock()
 	defer mu.Unlock()
@@ -319,6 +366,7 @@ func genDelivery(t *rapid.T) DCase {
 		c.PhaseB = append(c.PhaseB, rapid.IntRange(0, hi).Draw(t, "b"))
 		c.Actor = append(c.Actor, rapid.IntRange(0, 3).Draw(t, "actor") == 0)
 	}
+	c.DupSpawn = rapid.IntRange(0, 3).Draw(t, "dupspawn") == 0
 	c.Gate1 = rapid.IntRange(0, 6).Draw(t, "gate1")
 	c.Gate2 = rapid.IntRange(0, 6).Draw(t, "gate2")
 	return c
@@ -347,6 +395,9 @@ type SOp struct {
 	// stillborn: the actor is spawned WithMaxRestarts(0) and panics in this lifecycle handler
 	// ("Initialized" | "Started"), so it has already stopped when Spawn returns
 	DiesIn string `json:"dies_in,omitempty"`
+	// Poisoned (dupover): the duplicates are spawned while the incumbent is draining the messages queued
+	// behind a graceful Poison - it is still live, still registered, still owns its id
+	Poisoned bool `json:"poisoned,omitempty"`
 }
 
 type SCase struct {
@@ -354,6 +405,10 @@ type SCase struct {
 }
 
 type gate struct{ ch chan struct{} }
+type gateIn struct {
+	ch chan struct{}
+	in chan struct{} // closed when the receiver has entered the gate
+}
 type umsg struct{ N int }
 type mark struct{ ch chan struct{} }
 
@@ -385,6 +440,9 @@ func (h *spawnHarness) producer(id string) actor.Producer {
 					panic("generated panic in Started")
 				}
 			case gate:
+				<-m.ch
+			case gateIn:
+				close(m.in)
 				<-m.ch
 			case umsg:
 				h.mu.Lock()
@@ -576,6 +634,60 @@ func runSpawns(c SCase) (map[string]int, error) {
 				continue
 			}
 			pid := actor.NewPID(e.Address(), full)
+			if op.Poisoned {
+				// [gate1] then, while the actor is blocked in it: [pill, gate2, backlog..., marker] - one batch
+				g1, g2 := gate{make(chan struct{})}, gate{make(chan struct{})}
+				in2 := make(chan struct{})
+				e.Send(pid, g1)
+				h.mu.Lock()
+				base := len(h.logs[full])
+				h.mu.Unlock()
+				stopCtx := e.Poison(pid)
+				e.Send(pid, gateIn{g2.ch, in2})
+				for i := 0; i < op.Backlog; i++ {
+					e.Send(pid, umsg{oi*100 + i})
+				}
+				close(g1.ch)
+				if err := waitCh(in2, "the incumbent never reached the gate queued behind its poison pill"); err != nil {
+					return nil, err
+				}
+				// the incumbent is draining: it has not handled Stopped, it is live
+				if p := e.Registry.GetPID(kind, sub); p == nil {
+					return nil, fmt.Errorf("op %d: %s is draining the messages queued behind a Poison (it has not handled Stopped), but GetPID no longer returns it", oi, full)
+				}
+				var wg sync.WaitGroup
+				errs := make(chan error, op.G)
+				for i := 0; i < op.G; i++ {
+					wg.Add(1)
+					go func() {
+						defer wg.Done()
+						if err := h.spawn(op.ID, op.Child); err != nil {
+							errs <- err
+						}
+					}()
+				}
+				wg.Wait()
+				select {
+				case err := <-errs:
+					return nil, err
+				default:
+				}
+				wantDup[full] += op.G
+				close(g2.ch)
+				if err := waitCh(stopCtx.Done(), "poison context of "+full+" not done"); err != nil {
+					return nil, err
+				}
+				h.mu.Lock()
+				l := append([]string(nil), h.logs[full][base:]...)
+				h.mu.Unlock()
+				if len(l) != op.Backlog {
+					return nil, fmt.Errorf("op %d: %d duplicate spawns over %s while it drained behind a Poison: it handled %d of the %d messages queued behind the pill in its batch (%v)", oi, op.G, full, len(l), op.Backlog, l)
+				}
+				m.live = false
+				m.stopped++
+				feat["duplicates-over-a-draining-actor"]++
+				break
+			}
 			g := gate{make(chan struct{})}
 			e.Send(pid, g)
 			h.mu.Lock()
@@ -691,6 +803,7 @@ func genSpawns(t *rapid.T) SCase {
 		case "dupover":
 			op.G = rapid.IntRange(1, 6).Draw(t, "g")
 			op.Backlog = rapid.IntRange(1, 20).Draw(t, "backlog")
+			op.Poisoned = rapid.IntRange(0, 2).Draw(t, "poisoned") == 0
 		case "stillborn":
 			op.DiesIn = rapid.SampledFrom([]string{"Initialized", "Started"}).Draw(t, "dies_in")
 		}
